@@ -103,6 +103,20 @@ impl Cm {
             Cm::I64(s) => s.update_with_weight(item, w as i64),
         }
     }
+    /// `==` of the two sketches (false for different counter types)
+    pub fn same_as(&self, o: &Cm) -> bool {
+        match (self, o) {
+            (Cm::U8(a), Cm::U8(b)) => a == b && b == a,
+            (Cm::U16(a), Cm::U16(b)) => a == b && b == a,
+            (Cm::U32(a), Cm::U32(b)) => a == b && b == a,
+            (Cm::U64(a), Cm::U64(b)) => a == b && b == a,
+            (Cm::I8(a), Cm::I8(b)) => a == b && b == a,
+            (Cm::I16(a), Cm::I16(b)) => a == b && b == a,
+            (Cm::I32(a), Cm::I32(b)) => a == b && b == a,
+            (Cm::I64(a), Cm::I64(b)) => a == b && b == a,
+            _ => false,
+        }
+    }
     pub fn estimate(&self, item: u64) -> u64 {
         each!(self, s => s.estimate(item) as u64)
     }
